@@ -443,11 +443,18 @@ def apply_op(op, kind, metric, w, m, tmpdir):
         w2 = other_world(w, small=(op == "fit_small"))
         apply_op("fit", kind, metric, w2, new_model(kind, metric), tmpdir)
         return None
+    if op == "refit_tiny":
+        # THIS object is first fitted on a two-sample subset (one sample per class): fewer samples
+        # than its configured neighbourhood sizes; whatever that call does, later fits must not depend on it
+        idx = [int(np.flatnonzero(w["Y"] == cl)[0]) for cl in sorted(set(w["Y"].tolist()))][:2]
+        w2 = dict(w, X=w["X"][idx].copy(), Y=w["Y"][idx].copy(), Xu=w["Xu"][:1].copy())
+        apply_op("fit", kind, metric, w2, m, tmpdir)
+        return None
     raise ValueError(op)
 
 
 OPS = ["fit", "predict_q", "predict_train", "get_distances", "pre_compute", "metric_rows",
-       "metric_alias", "fit_other", "fit_small"]
+       "metric_alias", "fit_other", "fit_small", "refit_tiny"]
 NEEDS_FIT = {"predict_q", "predict_train", "get_distances"}
 
 
@@ -472,6 +479,9 @@ def run_ops(kind, metric, seed, hist, tmpdir, check=True, refs=None):
                 return ("after %s %s on %s the caller's array(s) %s changed (e.g. %s)"
                         % (hist[:step + 1], kind, metric, ch, w[ch[0]].tolist()),
                         "caller array modified by %s" % op, None, val)
+            last_fit = [o for o in hist[:step] if o in ("fit", "refit_tiny")][-1:]
+            if op in NEEDS_FIT and last_fit != ["fit"]:
+                continue      # the object currently holds the two-sample classifier: nothing to compare with
             if refs is not None and step == len(hist) - 1:
                 ref = refs.get(op)
                 if ref is not None and ref != val:
